@@ -44,3 +44,15 @@ package core
 //@   opaque
 //@   deterministic
 //@   ensures result == ecount(e) && ecount(e) >= 0
+
+// Equality of entries is a deterministic function of the two (immutable)
+// entries, abstracted by eequal; an entry equals itself.
+//@ ufunc eequal(a *Entry, b *Entry, deep bool) bool
+//@ func (*Entry).Equal
+//@   opaque
+//@   deterministic
+//@   ensures result == eequal(e, other, deep)
+
+// A scan without a baseline returns a newly built snapshot.
+//@ func Scan
+//@   ensures[fresh] result3 == nil ==> result0 != nil && (baseline == nil ==> fresh(result0))
